@@ -92,6 +92,7 @@ func c11Configs(run *vfRun, w *vfWorld) []*c11Cfg {
 		names["cookie"] = append(names["cookie"], c11Name(rng, 254), c11Name(rng, 250)+"+.", "s_1", c11Name(rng, 1))
 		names["redis"] = append(names["redis"], c11Name(rng, 255), "s_1")
 	}
+	redisCfgs := 0
 	for _, store := range []string{"cookie", "redis"} {
 		for _, name := range names[store] {
 			for _, dom := range []string{"none", "parent", "parent-dot", "two", "two-rp"} {
@@ -108,7 +109,11 @@ func c11Configs(run *vfRun, w *vfWorld) []*c11Cfg {
 					c := &c11Cfg{Store: store, Name: name, Domain: dom, Path: cpath, Prefix: "/oauth2", Base: "/"}
 					c.Flags = []string{"--session-store-type=" + store, "--cookie-name=" + name, "--cookie-refresh=1m", "--insecure-oidc-skip-nonce=true"}
 					if store == "redis" {
-						c.Flags = append(c.Flags, "--redis-connection-url="+w.RedisURL())
+						// standalone, Cluster and Sentinel clients in turn (own builders / wrapper type in pkg/sessions/redis)
+						mode := []string{"standalone", "cluster", "sentinel"}[redisCfgs%3]
+						redisCfgs++
+						c.Flags = append(c.Flags, w.RedisModeFlags(mode)...)
+						run.Count("redis_configurations_client_"+mode, 1)
 					}
 					switch dom {
 					case "none":
